@@ -1068,7 +1068,11 @@ def rule_bound(fx, rep):
                     elif norm(o["uneval"]).startswith("engine::eval::"):
                         via.add(o["uneval"])
     n += 1
-    good = referenced == MODELLED and MODELLED <= set(P)
+    # a term the bound does not model invalidates it; a modelled table the scan does not see referenced (handed to a generic
+    # helper as a promoted `&TABLE`, or removed) only makes the bound looser
+    good = referenced <= MODELLED and MODELLED <= set(P)
+    if good and referenced != MODELLED:
+        rep.notes.append(f"C16-BOUND: modelled parameter tables not seen referenced by name: {sorted(MODELLED - referenced)} (the bound stays an upper bound)")
     rep.obligation(good)
     rep.sample({"rule": "C16-BOUND", "referenced_params": sorted(referenced)})
     if not good:
